@@ -560,7 +560,7 @@ Example C09_ex_roundtrip_run :
                      | Some (p, n, z), Some (p0, n0, z0) =>
                        Nat.eqb (length p) (length p0) && Nat.eqb (length n) (length n0) && Qeq_bool z z0
                      | _, _ => false end)
-          [(KDense, KSparse); (KSparse, KPag); (KPag, KDense); (KLow 8, KHigh 8)] = true /\
+          [(KDense, KSparse); (KSparse, KPag); (KPag, KDense); (KLow 200, KHigh 200)] = true /\
   px_rt KPag KSparse = px_abs (ROk px_s) /\
   (* a collapsing receiver of capacity 2 folds the lowest bins into index 99 *)
   px_rt (KLow 2) KDense = Some ([(99, Qmake 6 1); (100, Qmake 5 2)], [(3, Qmake 5 1)], Qmake 5 4).
@@ -591,21 +591,23 @@ Proof.
 Qed.
 Print Assumptions C09_ex_roundtrip_by_theorem.
 
-(* a hand-built message mixing map entries (one key twice) and contiguous counts, into a collapsing store *)
+(* a hand-built message mixing map entries (one key twice) and contiguous counts: into a collapsing store
+   of capacity 3 (indexes above 1 fold into 1), and as Go sees it (last duplicate wins) into a paginated store *)
 Definition px_msg : pb_store :=
   {| bin_counts := [(5, c_2); (-1, c_half); (5, c_7)]; contiguous_counts := [f64_one; f64_zero; c_2p5]; contiguous_offset := 4 |}.
 Example C09_ex_mixed_message :
   pb_idx_ok px_msg /\ ProtoProofs.pb_nonneg px_msg /\
   option_map (fun s => map (fun kw => (fst kw, this (snd kw))) (st_abs s)) (st_merge_with_proto (st_new (KHigh 3)) px_msg)
-    = Some [(-1, Qmake 1 2); (4, Qmake 1 1); (5, Qmake 23 2)] /\
+    = Some [(-1, Qmake 1 2); (1, Qmake 25 2)] /\
   option_map (fun s => map (fun kw => (fst kw, this (snd kw))) (st_abs s)) (st_merge_with_proto_go (st_new KPag) px_msg)
     = Some [(-1, Qmake 1 2); (4, Qmake 1 1); (5, Qmake 7 1); (6, Qmake 5 2)].
 Proof.
   split.
-  { split; [repeat constructor; vm_compute; split; discriminate|].
+  { split; [repeat (apply Forall_cons; [vm_compute; split; discriminate|]); apply Forall_nil|].
     right. split; vm_compute; split; discriminate. }
   split.
-  { unfold ProtoProofs.pb_nonneg, nonneg. repeat constructor; apply wleb_le; vm_compute; reflexivity. }
+  { unfold ProtoProofs.pb_nonneg, nonneg.
+    repeat (apply Forall_cons; [apply wleb_le; vm_compute; reflexivity|]). apply Forall_nil. }
   vm_compute. split; reflexivity.
 Qed.
 
